@@ -315,7 +315,9 @@ static outcome play(server &s,std::vector<std::string> const &segs,std::string c
 			if(++spins<200) sched_yield(); else usleep(50);
 		}
 	}
-	if(mode=="rst") {
+	if(mode.compare(0,3,"rst")==0) {
+		// "rst" or "rst:<microseconds>": reset the connection that long after the server took the last byte
+		if(mode.size()>4) { int us=atoi(mode.c_str()+4); double t=now_s()+us*1e-6; while(now_s()<t) { } }
 		struct linger l; l.l_onoff=1; l.l_linger=0;
 		setsockopt(fd,SOL_SOCKET,SO_LINGER,&l,sizeof(l));
 		::close(fd);
